@@ -2,7 +2,7 @@
    well-formedness check for list-given trees, the non-vacuity example and the
    witnesses of the three refuted statements (all by vm_compute). *)
 From Coq Require Import List NArith Bool Lia.
-From GV Require Import Lib.Tactics Chain.Tree Chain.Canonical Chain.LookupCache Chain.CanonicalProofs Chain.CanonicalInv Chain.CanonicalTop.
+From GV Require Import Lib.Tactics Chain.Tree Chain.Canonical Chain.LookupCache Chain.CanonicalProofs Chain.CanonicalInv Chain.CanonicalTop Chain.CanonicalIndex Chain.CanonicalEvents.
 Import ListNotations.
 Local Open Scope N_scope.
 
@@ -147,3 +147,44 @@ Proof. exists stale_ops, 7. vm_compute. reflexivity. Qed.
 
 Lemma lookup_cache_repaired : cached_vs_index false stale_ops 7 = (None, None, None).
 Proof. vm_compute. reflexivity. Qed.
+
+(* ---- hypotheses of the tx-index theorem hold for WT ---- *)
+Lemma once_global : forall T, wf_tree T ->
+  (forall h1 h2 b1 b2 tx, T h1 = Some b1 -> T h2 = Some b2 -> In tx (b_txs b1) -> In tx (b_txs b2) -> h1 = h2) ->
+  tx_once_per_branch T.
+Proof.
+  intros T Hwf HG x n1 n2 h1 h2 b1 b2 tx Hx A1 A2 B1 B2 I1 I2.
+  assert (L1 : n1 <= hnum x) by (unfold anc in A1; unfold CanonicalProofs.hdr_ok in Hx; destruct x; cbn in *; rewrite Hx in A1; destruct (N.leb_spec n1 (b_number b)); [auto|discriminate]).
+  assert (L2 : n2 <= hnum x) by (unfold anc in A2; unfold CanonicalProofs.hdr_ok in Hx; destruct x; cbn in *; rewrite Hx in A2; destruct (N.leb_spec n2 (b_number b)); [auto|discriminate]).
+  destruct (anc_down T Hwf _ x n1 h1 Hx eq_refl L1 A1) as (c1 & C1 & N1 & _).
+  destruct (anc_down T Hwf _ x n2 h2 Hx eq_refl L2 A2) as (c2 & C2 & N2 & _).
+  assert (h1 = h2) by exact (HG h1 h2 b1 b2 tx B1 B2 I1 I2). subst h2. rewrite C1 in C2. inversion C2; subst. reflexivity.
+Qed.
+
+Lemma WT_once : tx_once_per_branch WT.
+Proof.
+  apply once_global; [exact WT_wf|].
+  assert (K : forall h b tx, WT h = Some b -> In tx (b_txs b) -> (h = 2 /\ tx = 7) \/ (h = 5 /\ tx = 9)).
+  { intros h b tx H I. unfold WT, tree_of_list, W in H. cbn -[N.eqb] in H.
+    repeat match type of H with context [N.eqb ?a h] => destruct (N.eqb_spec a h) end;
+      inversion H; subst; cbn in I; intuition (subst; auto). }
+  intros h1 h2 b1 b2 tx H1 H2 I1 I2.
+  destruct (K _ _ _ H1 I1) as [[-> ->]|[-> ->]]; destruct (K _ _ _ H2 I2) as [[-> E]|[-> E]]; auto; discriminate.
+Qed.
+
+Lemma WT_genesis_notx : forall g, WT 0 = Some g -> forall tx, ~ In tx (b_txs g).
+Proof. intros g H tx I. vm_compute in H. inversion H; subst. destruct I. Qed.
+
+(* SetHead leaves the entries of the blocks it deletes behind (C38-sethead-stale-lookups) *)
+Lemma tx_index_sethead_refuted :
+  let st := wrun [OInsert [1;2]; OSetHead 1] in
+  lookup st 7 = Some 2 /\ canon st 2 = None /\ hd_header st = 1 /\ hd_block st = 1.
+Proof. vm_compute. repeat split; reflexivity. Qed.
+
+(* SetHead drops canonical block 2 (log 100) without any RemovedLogsEvent (C38-sethead-no-removed-logs) *)
+Lemma set_head_no_removed_logs_refuted :
+  let st := wrun [OInsert [1;2]] in
+  canon st 2 = Some 2 /\
+  exists st' evs, step WT wfuel st (OSetHead 1) = (st', evs, None) /\
+                  canon st' 2 = None /\ removed_logs evs = [] /\ head_evs evs = [1].
+Proof. split; [vm_compute; reflexivity|]. eexists. eexists. split; [vm_compute; reflexivity|]. repeat split; reflexivity. Qed.
